@@ -463,3 +463,10 @@ Definition recalc_case (g : mol) (hs : list (option Z)) : bool :=
   | Ok g' => list_eqb (option_eqb Z.eqb) (map (fun na => a_h (snd na)) (m_atoms g')) hs
   | Err _ => false
   end.
+(* the stored hydrogen counts of a molecule are valence states of its atoms: a stored count passes check_implicit, a
+   stored None means that calc_implicit finds no state (used on real corpus molecules in Kekule form) *)
+Definition stored_ok (g : mol) : bool :=
+  forallb (fun na => match a_h (snd na) with
+                     | Some h => match check_implicit g (fst na) h with Ok true => true | _ => false end
+                     | None => match calc_implicit g (fst na) with Ok None => true | _ => false end
+                     end) (m_atoms g).
